@@ -177,11 +177,14 @@ func (m *monC13) OnStep(r *Runner, st *Step) {
 		return
 	}
 	pre, post := st.Pre, st.Post
-	if len(st.Slashes) > 0 {
-		// value-changing event between accrual and claim: C12's territory; the exact model stops here
-		m.dead = true
-		r.Probe("c13_run_abandoned_after_slash")
-		return
+	for _, so := range st.Slashes {
+		if so.Fraction.IsPositive() {
+			// value-changing event between accrual and claim: C12's territory; the exact model stops here
+			m.dead = true
+			r.Probe("c13_run_abandoned_after_slash")
+			return
+		}
+		r.Probe("c13_jailed_without_slash")
 	}
 	for d, a := range pre.Assets {
 		if pa, ok := post.Assets[d]; ok && st.Kind == "end" && pa.TotalTokens.LT(a.TotalTokens) {
@@ -340,6 +343,9 @@ func (m *monC13) OnStep(r *Runner, st *Step) {
 		if _, ok := post.Dels[p]; ok {
 			r.Eval("C13.c")
 			_, existed := pre.Dels[p]
+			if sv, ok := pre.StVals[val]; ok && !sv.IsBonded() {
+				r.Probe("c13_new_stake_on_non_bonded_validator")
+			}
 			if existed {
 				r.Probe("c13_grow_existing_" + ro.Op.K)
 			} else {
@@ -360,6 +366,37 @@ func (m *monC13) OnStep(r *Runner, st *Step) {
 			}
 		}
 	}
+	// (c, continued) rewards that accrued before stake on a validator changed must be split by the stake
+	// distribution of that time "even if not yet withdrawn from the distribution module": right after a
+	// stake-changing operation nothing may be left pending for the module on the validators it touched
+	// (x/distribution allocates only at begin-block, so anything pending now accrued before the operation)
+	if st.Kind == "op" && st.Res.OK && (st.ROp.Op.K == "delegate" || st.ROp.Op.K == "redelegate" || st.ROp.Op.K == "undelegate") {
+		vals := []string{st.ROp.Val.String()}
+		if st.ROp.Op.K == "redelegate" {
+			vals = append(vals, st.ROp.Dst.String())
+		}
+		for _, v := range vals {
+			if _, has := post.ModDels[v]; !has {
+				continue
+			}
+			if a, ok := pre.Assets[st.ROp.Denom]; !ok || pre.Time.Before(a.RewardStartTime) {
+				continue
+			}
+			r.Eval("C13.c")
+			coins, ok := pendingModuleRewards(r, v)
+			if !ok {
+				continue
+			}
+			r.Probe("c13_pending_checked_after_stake_change")
+			if sv, ok := post.StVals[v]; ok && !sv.IsBonded() {
+				r.Probe("c13_pending_checked_on_non_bonded_validator")
+			}
+			if !coins.IsZero() {
+				r.Violate("C13.c", "stake-changed-with-rewards-pending:"+st.ROp.Op.K, fmt.Sprintf("%s changed the stake on validator %s while %s of rewards were still pending for the module in x/distribution: they accrued to the previous stake distribution but will be split with the new one", st.Name, short(v), coins))
+				return
+			}
+		}
+	}
 	// positions that vanished without a claim (should not happen outside claims) lose their ledger
 	for p := range m.ledger {
 		if _, ok := post.Dels[p]; !ok {
@@ -368,4 +405,20 @@ func (m *monC13) OnStep(r *Runner, st *Step) {
 			delete(m.segs, p)
 		}
 	}
+}
+
+// pendingModuleRewards: what x/distribution would pay the module account for validator v right now
+// (executed on a branch, nothing is kept).
+func pendingModuleRewards(r *Runner, v string) (sdk.Coins, bool) {
+	va, err := sdk.ValAddressFromBech32(v)
+	if err != nil {
+		return nil, false
+	}
+	var coins sdk.Coins
+	ok, _ := tryMsg(r, func(ctx sdk.Context) error {
+		c, err := r.W.App.DistrKeeper.WithdrawDelegationRewards(ctx, r.W.ModuleAddr, va)
+		coins = c
+		return err
+	})
+	return coins, ok
 }
